@@ -77,6 +77,7 @@ class Opa:
         self.width = width
         self.max_blocks_inline = max_blocks_inline
         self._cfg = {}
+        self.field_info = {}    # opaque field term -> (field name, field type) as seen at a place projection
         self._memo = {}
         self._stack = []
         self.stats = {'runs': 0, 'inlined': 0, 'top_widenings': 0}
@@ -200,6 +201,12 @@ class Opa:
                 res.calls[bb] = {'callee': t.get('resolved') or t.get('callee') or '?', 'decl': t.get('callee') or '?',
                                  'args': argv, 'raw': raw, 'dest': t['dest'], 'res': rv, 'line': t['line'],
                                  'inlined': inlined, 't': t, 'pc': env.get(PC, frozenset())}
+                if not inlined and env.get(PC):
+                    # a new evaluation of the same (uninterpreted, possibly stateful) call invalidates what was
+                    # known about the previous one: drop path facts that mention this call's result term
+                    keep = frozenset(f for f in env[PC] if rv not in subterms(f[0]))
+                    if len(keep) != len(env[PC]):
+                        env[PC] = keep
                 self.mark_mutations(t, raw, argv, rv, env)
                 self.write_place(t['dest'], rv, env, res, (bb, 'call'), t.get('line'))
                 if t['target'] is not None:
@@ -282,7 +289,10 @@ class Opa:
             if isinstance(pr, dict) and 'f' in pr:
                 if t[0] == 'ref':
                     t = self._read_path(t[1], t[2], env)
+                before = t
                 t = self.proj(t, pr['f'], variant)
+                if t is not None and pr.get('t') is not None and t == ('field', before, variant, pr['f']):
+                    self.field_info.setdefault(t, (pr.get('n', ''), pr['t']))
                 variant = None
                 continue
             if isinstance(pr, dict) and 'idx' in pr:
@@ -513,6 +523,8 @@ class Opa:
                     base = env.get(local)
                     hops += 1
                 if not any(p[1] == '*' for p in path):
+                    if path:
+                        self.read_place(pl, env)    # records field names / types of the referenced place
                     return ('ref', local, tuple(path), bool(rv.get('mut')) or r == 'rawptr')
             return self.read_place(pl, env)
         if r == 'bin':
@@ -648,7 +660,8 @@ class Opa:
         callee = strip_generics(t.get('resolved') or t.get('callee') or '?')
         if callee.split('::')[-1] in CURSOR_METHODS:
             return
-        ct = ('call', t.get('resolved') or t.get('callee') or '?', tuple(argv))
+        nm = t.get('callee') if (t.get('trait') and not t.get('local')) else (t.get('resolved') or t.get('callee') or '?')
+        ct = ('call', nm, tuple(argv))
         for a in raw:
             if a is not None and a[0] == 'ref' and len(a) > 3 and a[3]:
                 old = self._read_path(a[1], a[2], env)
@@ -682,9 +695,11 @@ class Opa:
         if decl in ('std::convert::Into::into', 'std::convert::From::from') and len(argv) == 1 and NONZERO_RE.search(full) \
                 and ('usize as std::convert::From' in full or 'as std::convert::Into<usize>' in full):
             return argv[0], False
+        # external trait methods are named by their declared (trait) path so that terms are uniform
+        name = decl if (t.get('trait') and not t.get('local')) else res
         if not argv:
-            return ('call', res, (('const', 'site:bb%s' % t.get('target')),)), False
-        return self.interpret(res, argv), False
+            return ('call', name, (('const', 'site:bb%s' % t.get('target')),)), False
+        return self.interpret(name, argv), False
 
     def call_path(self, path, argv, seeds, depth):
         if path in self.facts.bodies:
